@@ -647,6 +647,35 @@ fn x_usable_after_load() {
     st.finish();
 }
 
+/// C04 under the child's memory policy (4 GiB of address space, inputs below 64 KiB): a cel chunk that merely NAMES
+/// layer 65535 must not make the loader reserve a row of 65536 slots for its frame (the defect repaired by the sparse
+/// cel table, see known_findings.json): a few hundred such frames used to exhaust the address space.
+#[test]
+fn x_cel_table_memory() {
+    let mut st = Stats::new("x_cel_table_memory", "n in {50, 200, 800} frames, each with one linked-cel chunk naming layer 65535 (files of 2 / 8 / 32 KiB); child process under RLIMIT_AS = 4 GiB");
+    let mut inputs = Vec::new();
+    for &n in &[50usize, 200, 800] {
+        let mut s = Sprite::new(1, 1, Fmt::Rgba, n);
+        s.layers.push(LayerM::image("a"));
+        for f in 0..n {
+            s.frames[f].cels.push(CelM { layer: 65535, x: 0, y: 0, opacity: 255, kind: CelKind::Linked(0), ud: None, zlib: None });
+        }
+        inputs.push((n, encode(&s)));
+    }
+    let bytes: Vec<Vec<u8>> = inputs.iter().map(|(_, b)| b.clone()).collect();
+    let fates = run_batch(&bytes, false, "celtable");
+    for ((n, b), f) in inputs.iter().zip(fates.iter()) {
+        st.case(&(*n, b.len()), true);
+        match f {
+            Fate::Loaded | Fate::Rejected => {}
+            Fate::NotRun => {}
+            other => st.fail(format!("cel table growth: {} frames each naming layer 65535 ({} bytes) do not yield a sprite or an error value under a 4 GiB address-space limit: {:?}", n, b.len(), other), Some(b)),
+        }
+    }
+    st.sample("800 frames x one linked cel at layer 65535 (32 KiB)".into());
+    st.finish();
+}
+
 /// Replay helper: load the file named by VERIF_REPLAY_FILE with the real library and exercise it.
 #[test]
 fn x_replay_file() {
